@@ -4,6 +4,18 @@
 
 package router
 
+// C19: only IPv4 routers are ever configured (the option constructor serialises To4() of each
+// address: anything else would corrupt the reply); C17: one configured router per argument
+// (checked element by element where setup4 appends; the step from "every appended router is IPv4"
+// to "every configured router is IPv4" is not machine-checked: assumed)
+//@ plugin-invariant[Handler4,assumed] forall i in 0..len(routers): isv4(routers[i])
+
+//@ func setup4
+//@   modifies everything
+//@   ensures[C17,C19:one-router-per-argument] ret1 == nil ==> len(routers) == old(len(routers)) + len(args)
+//@   loop 1: invariant len(routers) == old(len(routers)) + loopindex + 1
+//@   assert[C19:only-ipv4-routers-are-configured] before "append(routers, router)": isv4(router)
+
 //@ func Handler4
 //@   implements handler.Handler4
 //@   modifies everything
